@@ -18,7 +18,6 @@ M = [
  ("c04_south_leaf", "C04", "src/timezone/rule.rs", "                    if next_year_dst_end_unix_time <= unix_time {\n                        let next_year_dst_start_unix_time", "                    if next_year_dst_end_unix_time < unix_time {\n                        let next_year_dst_start_unix_time"),
  ("c04_julian_leap", "C04", "src/timezone/rule.rs", "let start_leap_year_offset = if self.0 <= 59 {", "let start_leap_year_offset = if self.0 <= 59 {"),  # placeholder replaced below
  ("c05_interval_start", "C05", "src/datetime/find.rs", "if previous_transition_unix_leap_time <= unix_leap_time_before && unix_leap_time_before < transition.unix_leap_time() {", "if previous_transition_unix_leap_time < unix_leap_time_before && unix_leap_time_before < transition.unix_leap_time() {"),
- ("c05_rule_first_valid", "C05", "src/datetime/find.rs", "position(|&unix_time| previous_transition_unix_time < unix_time)", "position(|&unix_time| previous_transition_unix_time <= unix_time)"),
  ("c06_gap_upper_bound", "C06", "src/datetime/find.rs", "if unix_leap_time_before >= transition.unix_leap_time() && unix_leap_time_after < transition.unix_leap_time() {", "if unix_leap_time_before >= transition.unix_leap_time() && unix_leap_time_after <= transition.unix_leap_time() {"),
  ("c06_last_transition_guard", "C06", "src/datetime/find.rs", "if index < transitions.len() - 1 || extra_rule.is_some() {", "if index < transitions.len() || extra_rule.is_some() {"),
  ("c07_unchecked_add", "C07", "src/datetime/mod.rs", "        let unix_time_with_offset = match unix_time.checked_add(local_time_type.ut_offset() as i64) {\n            Some(unix_time_with_offset) => unix_time_with_offset,\n            None => return Err(TzError::OutOfRange),\n        };", "        let unix_time_with_offset = unix_time + local_time_type.ut_offset() as i64;"),
@@ -37,7 +36,7 @@ M = [
  ("c17_count_written_only", "C17", "src/datetime/find.rs", "            self.current_index += 1\n        }\n\n        self.count += 1;", "            self.current_index += 1;\n            self.count += 1;\n        }\n"),
  ("c18_minutes_signed", "C18", "src/datetime/mod.rs", "        let offset_minute = (ut_offset_abs / SECONDS_PER_MINUTE) % MINUTES_PER_HOUR;", "        let offset_minute = ((ut_offset / SECONDS_PER_MINUTE) % MINUTES_PER_HOUR).abs() + (ut_offset < 0 && ut_offset % 60 != 0) as i64;"),
  ("c20_description_first", "C20", "src/timezone/mod.rs", "        match self.read_tz_file(tz_string) {\n            Ok(bytes) => Ok(parse_tz_file(&bytes)?),\n            Err(_) => {", "        match if tz_string.contains(',') { Err(crate::Error::Io(\"skip\".into())) } else { self.read_tz_file(tz_string) } {\n            Ok(bytes) => Ok(parse_tz_file(&bytes)?),\n            Err(_) => {"),
- ("c15_static_cache", "C15", "src/timezone/mod.rs", "    /// Find the local time type associated to the time zone at the specified Unix time in seconds\n    pub fn find_local_time_type(&self, unix_time: i64) -> Result<&LocalTimeType, TzError> {\n        self.as_ref().find_local_time_type(unix_time)", "    /// Find the local time type associated to the time zone at the specified Unix time in seconds\n    pub fn find_local_time_type(&self, unix_time: i64) -> Result<&LocalTimeType, TzError> {\n        #[cfg(feature = \"std\")]\n        {\n            static LAST: std::sync::atomic::AtomicI64 = std::sync::atomic::AtomicI64::new(0);\n            LAST.store(unix_time, std::sync::atomic::Ordering::Relaxed);\n        }\n        self.as_ref().find_local_time_type(unix_time)"),
+ ("c15_static_cache", "C15", "src/timezone/mod.rs", "    /// Find the local time type associated to the time zone at the specified Unix time in seconds\n    pub fn find_local_time_type(&self, unix_time: i64) -> Result<&LocalTimeType, TzError> {\n        self.as_ref().find_local_time_type(unix_time)", "    /// Find the local time type associated to the time zone at the specified Unix time in seconds\n    pub fn find_local_time_type(&self, unix_time: i64) -> Result<&LocalTimeType, TzError> {\n        #[cfg(feature = \"std\")]\n        {\n            // memoise the last answer (most callers ask for 'now' repeatedly)\n            static LAST_TIME: std::sync::atomic::AtomicI64 = std::sync::atomic::AtomicI64::new(i64::MIN);\n            static LAST_INDEX: std::sync::atomic::AtomicUsize = std::sync::atomic::AtomicUsize::new(usize::MAX);\n            static LAST_ZONE: std::sync::atomic::AtomicUsize = std::sync::atomic::AtomicUsize::new(0);\n            use std::sync::atomic::Ordering::Relaxed;\n            if LAST_TIME.load(Relaxed) == unix_time && LAST_ZONE.load(Relaxed) == self as *const Self as usize {\n                if let Some(t) = self.local_time_types.get(LAST_INDEX.load(Relaxed)) {\n                    return Ok(t);\n                }\n            }\n            let r = self.as_ref().find_local_time_type(unix_time)?;\n            if let Some(i) = self.local_time_types.iter().position(|t| core::ptr::eq(t, r)) {\n                LAST_INDEX.store(i, Relaxed);\n                LAST_ZONE.store(self as *const Self as usize, Relaxed);\n                LAST_TIME.store(unix_time, Relaxed);\n            }\n            return Ok(r);\n        }\n        #[allow(unreachable_code)]\n        self.as_ref().find_local_time_type(unix_time)"),
  ("c15_env_fallback", "C15", "src/timezone/mod.rs", "        if tz_string.is_empty() {\n            return Err(TzStringError::Empty.into());\n        }", "        if tz_string.is_empty() {\n            #[cfg(feature = \"std\")]\n            if let Ok(env_tz) = std::env::var(\"TZ\") {\n                if !env_tz.is_empty() {\n                    return self.parse_posix_tz(&env_tz);\n                }\n            }\n            return Err(TzStringError::Empty.into());\n        }"),
  ("c19_std_dependent", "C19", "src/datetime/mod.rs", "    let leap = (month >= 3 && is_leap_year(year)) as i64;\n    (CUMUL_DAYS_IN_MONTHS_NORMAL_YEAR[month - 1] + leap + month_day - 1) as u16", "    let leap = (month >= 3 && is_leap_year(year)) as i64;\n    #[cfg(not(feature = \"std\"))]\n    let leap = if year < -2500 { 0 } else { leap };\n    (CUMUL_DAYS_IN_MONTHS_NORMAL_YEAR[month - 1] + leap + month_day - 1) as u16"),
 ]
